@@ -206,6 +206,14 @@ Proof.
   eapply Keep_trans; [exact K|apply Keep_rearm].
 Qed.
 
+Lemma Keep_eval_pauser T beh g i w : Keep w (eval_pauser T beh g i w).
+Proof.
+  unfold eval_pauser. destruct (negb (n_started _)); [apply Keep_refl|].
+  destruct (_ <? _).
+  - eapply Keep_trans; [apply Keep_upd_node|]. eapply Keep_trans; [apply Keep_emit|apply Keep_set_err].
+  - eapply Keep_trans; [apply Keep_upd_node|apply Keep_run_user].
+Qed.
+
 Lemma Keep_relink T g i w : Keep w (relink T g i w).
 Proof.
   unfold relink. destruct (_ && _); [|apply Keep_refl].
@@ -424,6 +432,69 @@ Proof.
   - unfold upd_g, now_of, gat in *; simpl. rewrite update_oob by lia. apply (H _ _ _ Hc).
 Qed.
 
+(* ---- starting / evaluating a graph never touches the clock of a graph with a smaller id: in
+   particular not the clock of any ancestor (parents have smaller ids) ---- *)
+Definition ev_low (ev : nat -> Z -> world -> world) : Prop :=
+  forall c t w g', (g' < c)%nat -> now_of g' (ev c t w) = now_of g' w.
+
+Section LOWEVAL.
+  Variable T : tcfg.
+  Variable beh : behaviour.
+  Hypothesis HT : wf_tree T.
+
+  Lemma child_gt g i : is_nested (ncfg_at T g i) = true -> (g < c_child (ncfg_at T g i))%nat.
+  Proof. intros Hn. destruct HT as (HP & HK & _). apply (HP _ _ _ (HK _ _ Hn)). Qed.
+
+  Lemma low_reenter ev c now : ev_low ev -> forall n w g', (g' < c)%nat -> now_of g' (reenter ev n c now w) = now_of g' w.
+  Proof.
+    intros Hev. induction n as [|n IH]; intros w g' Hg; simpl; auto.
+    destruct (_ =? _); auto. rewrite IH; auto. rewrite Hev; auto.
+  Qed.
+
+  Lemma low_eval_node ev g i w g' : ev_low ev -> (g' <= g)%nat -> now_of g' (eval_node T beh ev g i w) = now_of g' w.
+  Proof.
+    intros Hev Hg. unfold eval_node. destruct (is_nested _) eqn:E.
+    - unfold eval_nested. destruct (negb (n_started _)); auto.
+      assert (Hc := child_gt _ _ E).
+      assert (E1 : now_of g' (ev (c_child (ncfg_at T g i)) (now_of g w) (relink T g i w)) = now_of g' w)
+        by (rewrite Hev by lia; apply Keep_now, Keep_relink).
+      destruct (_ =? 1); auto.
+      destruct (_ =? 4); [rewrite low_reenter; auto; lia|].
+      destruct (_ =? PAUSED); auto.
+      rewrite (Keep_now _ _ _ (Keep_catch _ _ _ _ _)). auto.
+    - destruct (_ =? 5); [apply Keep_now, Keep_eval_pauser|apply Keep_now, Keep_eval_plain].
+  Qed.
+
+  Lemma low_scan ev g : ev_low ev -> forall k i w g', (g' <= g)%nat -> now_of g' (scan T beh ev g i k w) = now_of g' w.
+  Proof.
+    intros Hev. induction k as [|k IH]; intros i w g' Hg; simpl; auto.
+    destruct (negb (ok w)); auto.
+    set (w0 := upd_g g (g_set_cursor (Z.of_nat i)) w).
+    assert (E0 : now_of g' w0 = now_of g' w) by (apply NowEq_upd_g; reflexivity).
+    match goal with |- now_of g' (if negb (ok ?w') then _ else _) = _ => assert (E1 : now_of g' w' = now_of g' w) end.
+    { destruct (_ =? _).
+      - rewrite low_eval_node; auto.
+      - destruct (_ <? _); auto. destruct (_ <? _); auto. rewrite <- E0. apply NowEq_upd_g; reflexivity. }
+    destruct (negb (ok _)); auto. rewrite IH; auto.
+  Qed.
+
+  Lemma low_eval_graph rr : forall f, ev_low (eval_graph f T beh rr).
+  Proof.
+    induction f as [|f IH]; intros g t w g' Hg; simpl; auto.
+    match goal with |- now_of g' (if negb (ok (scan _ _ _ _ ?st ?n ?w1)) then _ else _) = _ =>
+      assert (E1 : now_of g' w1 = now_of g' w) end.
+    { destruct (_ && _); [apply now_upd_other; lia|].
+      unfold now_of. rewrite gat_emit. rewrite !gat_upd_other by lia. reflexivity. }
+    match goal with |- now_of g' (if negb (ok ?w2) then _ else _) = _ => assert (E2 : now_of g' w2 = now_of g' w)
+      by (rewrite low_scan; auto; lia) end.
+    destruct (negb (ok _)); [rewrite now_upd_other by lia; auto|].
+    rewrite now_upd_other by lia.
+    destruct (gc_parent (gcfg_at T g)) as [[pg pn]|]; [|rewrite now_upd_other by lia; auto].
+    destruct (_ <? _); [|rewrite now_upd_other by lia; auto].
+    rewrite (Keep_now _ _ _ (Keep_sched_at _ _ _ _ _ _)). rewrite now_upd_other by lia; auto.
+  Qed.
+End LOWEVAL.
+
 (* what the recursion needs to know about "one level down" *)
 Definition ev_clocks (T : tcfg) (ev : nat -> Z -> world -> world) : Prop :=
   forall c t w, clocks_ok T w -> now_of c w <= t ->
@@ -447,27 +518,45 @@ Section CLOCKS.
     - intros pg pn Hp. rewrite Hc in Hp. inversion Hp; subst. rewrite K. lia.
   Qed.
 
-  Lemma clocks_eval_nested ev g i w :
-    ev_clocks T ev -> is_nested (ncfg_at T g i) = true -> clocks_ok T w -> clocks_ok T (eval_nested T ev g i w).
+  (* re-entering a paused child cycle: same time, so the same premises hold again *)
+  Lemma clocks_reenter ev g i t : ev_clocks T ev -> ev_low ev -> is_nested (ncfg_at T g i) = true ->
+    forall n w, clocks_ok T w -> now_of g w = t -> clocks_ok T (reenter ev n (c_child (ncfg_at T g i)) t w).
   Proof.
-    intros Hev Hn H. unfold eval_nested. destruct (negb (n_started _)); auto.
+    intros Hev Hlow Hn. destruct HT as (HP & HK & _). assert (Hc := HK _ _ Hn).
+    assert (Hlt : (g < c_child (ncfg_at T g i))%nat) by apply (HP _ _ _ Hc).
+    induction n as [|n IH]; intros w H Ht; simpl; auto.
+    destruct (_ =? _); auto. apply IH.
+    - apply Hev.
+      + eapply clocks_Keep; [apply Keep_set_err|auto].
+      + change (now_of (c_child (ncfg_at T g i)) w <= t). rewrite <- Ht. apply (H _ _ _ Hc).
+      + intros pg pn Hp. rewrite Hc in Hp. inversion Hp; subst. change (now_of pg (set_err 0 w)) with (now_of pg w). lia.
+    - rewrite Hlow; auto.
+  Qed.
+
+  Lemma clocks_eval_nested ev g i w :
+    ev_clocks T ev -> ev_low ev -> is_nested (ncfg_at T g i) = true -> clocks_ok T w -> clocks_ok T (eval_nested T ev g i w).
+  Proof.
+    intros Hev Hlow Hn H. unfold eval_nested. destruct (negb (n_started _)); auto.
     assert (H1 : clocks_ok T (ev (c_child (ncfg_at T g i)) (now_of g w) (relink T g i w))).
     { apply clocks_child_call; auto. apply Keep_NowEq, Keep_relink. }
     destruct (c_kind _ =? 1); auto.
-    eapply clocks_Keep; [apply Keep_catch|auto].
+    destruct (c_kind _ =? 4).
+    - apply clocks_reenter; auto. rewrite Hlow; [apply Keep_now, Keep_relink|apply (child_gt T HT _ _ Hn)].
+    - destruct (_ =? PAUSED); auto. eapply clocks_Keep; [apply Keep_catch|auto].
   Qed.
 
   Lemma clocks_eval_node ev g i w :
-    ev_clocks T ev -> clocks_ok T w -> clocks_ok T (eval_node T beh ev g i w).
+    ev_clocks T ev -> ev_low ev -> clocks_ok T w -> clocks_ok T (eval_node T beh ev g i w).
   Proof.
-    intros Hev H. unfold eval_node. destruct (is_nested _) eqn:E.
+    intros Hev Hlow H. unfold eval_node. destruct (is_nested _) eqn:E.
     - apply clocks_eval_nested; auto.
-    - eapply clocks_Keep; [apply Keep_eval_plain|auto].
+    - destruct (_ =? 5); [eapply clocks_Keep; [apply Keep_eval_pauser|auto]|].
+      eapply clocks_Keep; [apply Keep_eval_plain|auto].
   Qed.
 
-  Lemma clocks_scan ev g : ev_clocks T ev -> forall k i w, clocks_ok T w -> clocks_ok T (scan T beh ev g i k w).
+  Lemma clocks_scan ev g : ev_clocks T ev -> ev_low ev -> forall k i w, clocks_ok T w -> clocks_ok T (scan T beh ev g i k w).
   Proof.
-    intros Hev. induction k as [|k IH]; intros i w H; simpl; auto.
+    intros Hev Hlow. induction k as [|k IH]; intros i w H; simpl; auto.
     destruct (negb (ok w)); auto.
     set (w0 := upd_g g (g_set_cursor (Z.of_nat i)) w).
     assert (H0 : clocks_ok T w0) by (eapply clocks_NowEq; [apply NowEq_upd_g; reflexivity|auto]).
@@ -490,7 +579,7 @@ Section CLOCKS.
     { destruct (_ && _); auto.
       eapply clocks_NowEq; [|exact H0]. intros x. unfold now_of. rewrite gat_emit.
       apply (gat_upd_proj g_now). reflexivity. }
-    match goal with |- clocks_ok T (if negb (ok ?w2) then _ else _) => assert (H2 : clocks_ok T w2) by (apply clocks_scan; auto) end.
+    match goal with |- clocks_ok T (if negb (ok ?w2) then _ else _) => assert (H2 : clocks_ok T w2) by (apply clocks_scan; auto; apply (low_eval_graph T beh HT rr f)) end.
     destruct (negb (ok _)).
     - eapply clocks_NowEq; [apply NowEq_upd_g; reflexivity|auto].
     - eapply clocks_NowEq; [apply NowEq_upd_g; reflexivity|].
@@ -530,18 +619,10 @@ Section CLOCKS.
   Qed.
 End CLOCKS.
 
-(* ---- starting / evaluating a graph never touches the clock of a graph with a smaller id: in
-   particular not the clock of any ancestor (parents have smaller ids) ---- *)
-Definition ev_low (ev : nat -> Z -> world -> world) : Prop :=
-  forall c t w g', (g' < c)%nat -> now_of g' (ev c t w) = now_of g' w.
-
 Section LOW.
   Variable T : tcfg.
   Variable beh : behaviour.
   Hypothesis HT : wf_tree T.
-
-  Lemma child_gt g i : is_nested (ncfg_at T g i) = true -> (g < c_child (ncfg_at T g i))%nat.
-  Proof. intros Hn. destruct HT as (HP & HK & _). apply (HP _ _ _ (HK _ _ Hn)). Qed.
 
   Lemma low_start_nodes sc g : ev_low sc -> forall k i w g', (g' <= g)%nat ->
     now_of g' (start_nodes T beh sc g i k w) = now_of g' w.
@@ -550,7 +631,7 @@ Section LOW.
     rewrite IH; auto. unfold start_node. destruct (negb (ok w)); auto.
     destruct (is_nested _) eqn:E; [|apply Keep_now, Keep_start_plain].
     assert (E1 : now_of g' (sc (c_child (ncfg_at T g i)) (now_of g w) w) = now_of g' w)
-      by (apply Hev; pose proof (child_gt _ _ E); lia).
+      by (apply Hev; pose proof (child_gt T HT _ _ E); lia).
     destruct (negb (ok _)); auto.
     match goal with |- now_of g' (if negb (ok ?w3) then _ else _) = _ => assert (E3 : now_of g' w3 = now_of g' w) end.
     { rewrite (Keep_now _ _ _ (Keep_pull _ _ _ _ _)), (Keep_now _ _ _ (Keep_sampled _ _ _ _ _)); auto. }
@@ -638,6 +719,11 @@ Section ROOT.
     { unfold relink. destruct (_ && _); auto. apply root_cache_notify_graphs; auto using root_cache_upd_node. }
     assert (R1 := Hev (c_child (ncfg_at T g i)) (now_of g w) _ (child_not_root _ _ Hn) R0).
     destruct (c_kind _ =? 1); auto.
+    destruct (c_kind _ =? 4).
+    { generalize 64%nat. intros n. revert R1. generalize (ev (c_child (ncfg_at T g i)) (now_of g w) (relink T g i w)).
+      induction n as [|n IHn]; intros w1 R1; simpl; auto. destruct (_ =? _); auto.
+      apply IHn. apply Hev; [apply child_not_root; auto|exact R1]. }
+    destruct (_ =? PAUSED); auto.
     unfold catch, caught. apply root_cache_pull.
     destruct (negb (ok _)); auto. apply root_cache_write_err; auto.
   Qed.
@@ -653,7 +739,10 @@ Section ROOT.
     { destruct (_ =? _).
       - unfold eval_node. destruct (is_nested _) eqn:E.
         + apply root_cache_eval_nested; auto.
-        + apply root_cache_eval_plain; auto.
+        + destruct (_ =? 5); [|apply root_cache_eval_plain; auto].
+          unfold eval_pauser. destruct (negb (n_started _)); auto. destruct (_ <? _).
+          * apply root_cache_upd_node with (w := w0); auto.
+          * apply root_cache_do_ops; auto. apply root_cache_upd_node. apply root_cache_upd_node with (w := w0); auto.
       - destruct (g_now (gat g w0) <? slot_at i (gat g w0)) eqn:E1; auto.
         destruct (slot_at i (gat g w0) <? g_nst (gat g w0)); auto. apply root_cache_set_nst_gt; auto. lia. }
     destruct (negb (ok _)); auto.
@@ -1040,7 +1129,7 @@ Lemma old_rule_resumes f T beh g t w :
    let n := length (gc_nodes (gcfg_at T g)) in
    let st := Z.to_nat (g_cursor (gat g w0)) in
    let w2 := scan T beh (eval_graph f T beh false) g st (n - st) w0 in
-   if negb (ok w2) then upd_g g (fun s => g_set_flags (g_started s) false true s) w2
+   if negb (ok w2) then upd_g g (fun s => g_set_flags (g_started s) false (negb (w_err w2 =? PAUSED)) s) w2
    else
      let w3 := upd_g g (g_set_cursor 0) w2 in
      let w4 := match gc_parent (gcfg_at T g) with
@@ -1059,7 +1148,13 @@ Qed.
 Lemma eval_nested_time T ev ev' g i w :
   (forall w', ev (c_child (ncfg_at T g i)) (now_of g w) w' = ev' (c_child (ncfg_at T g i)) (now_of g w) w') ->
   eval_nested T ev g i w = eval_nested T ev' g i w.
-Proof. intros H. unfold eval_nested. rewrite H. reflexivity. Qed.
+Proof.
+  intros H. unfold eval_nested. rewrite H.
+  assert (R : forall n w1, reenter ev n (c_child (ncfg_at T g i)) (now_of g w) w1
+                         = reenter ev' n (c_child (ncfg_at T g i)) (now_of g w) w1).
+  { induction n as [|n IH]; intros w1; simpl; auto. destruct (_ =? _); auto. rewrite H. apply IH. }
+  rewrite R. reflexivity.
+Qed.
 
 
 (* ------------------------------------------------------------------ 5. push and pull: the parent is due no later *)
